@@ -1136,6 +1136,107 @@ theorem stack_batch_eq_torch [Inhabited α] (d : Int) (bs : Shape) (names : Name
       · simp [Torch.stackShape, hn, T.stack, proxy]
       · intro l hl; subst hl; rfl
 
+/-! ## gather -/
+
+/-- gather on an entry, seen through the batch view, is gather on the batch view: trailing feature dims are carried along -/
+theorem gather_leaf_commutes (leaf : T α) (index : T Nat) (n d : Nat) (hn : n ≤ leaf.shape.length) (hd : d < n)
+    (hshape : index.shape = (leaf.shape.take n).set d (index.shape.getD d 0)) :
+    asBatch n ((T.gather d (indexExpand index leaf.shape d) leaf)) ≈ₜₜ T.gather d index (asBatch n leaf) := by
+  have hlen : index.shape.length = n := by
+    have := congrArg List.length hshape; simp at this; omega
+  apply asBatch_eqv2
+  · simp only [T.gather, indexExpand]
+    rw [List.take_set]; exact hshape.symm
+  · intro c hc
+    simp only [T.gather, indexExpand] at hc ⊢
+    have hcl : c.length = n := by
+      have := InB.length_eq hc; simp at this; omega
+    refine ⟨?_, ?_⟩
+    · simp only [asBatch]; rw [List.drop_set_of_lt hd]
+    · intro f _
+      simp only [asBatch]
+      have h1 : (c ++ f).take index.shape.length = c := by
+        rw [hlen, ← hcl]; simp
+      rw [h1]
+      congr 1
+      rw [List.set_append]
+      simp [show d < c.length by omega]
+
+
+/-- `torch.gather` of a tensordict: an accepted call has a valid (possibly negative) batch dim and the result's batch size is the
+shape `torch.gather` gives the batch-shape proxy, i.e. the index's shape -/
+theorem gather_batch_eq_torch (d : Int) (index : T Nat) (bs : Shape) (names : Names) (es : List (String × TD α)) (r : TD α)
+    (h : gatherNode d index bs names es = .ok r) :
+    ∃ i nm' es', normDim bs.length d = some i ∧ r = .node (T.gather i index (proxy bs)).shape nm' es' := by
+  unfold gatherNode at h
+  split at h
+  · cases h
+  · rename_i s0 rest hsh
+    by_cases h0 : s0 = 0
+    · rw [if_pos h0] at h; cases h
+    rw [if_neg h0] at h
+    simp only [] at h
+    generalize hdim : (if d < 0 then (bs.length : Int) + d else d) = dim at h
+    by_cases h1 : dim > (bs.length : Int) - 1 ∨ dim < 0
+    · rw [if_pos h1] at h; cases h
+    rw [if_neg h1] at h
+    split at h
+    · cases h
+    · split at h
+      · cases h
+      · rename_i es' _
+        simp only [Except.ok.injEq] at h
+        refine ⟨dim.toNat, (if index.shape.length = bs.length then normNames names else none), es', ?_, ?_⟩
+        · unfold normDim; grind
+        · rw [← h]; simp [T.gather]
+
+/-! ## masked_select -/
+
+/-- masked selection on an entry, seen through the batch view, is masked selection of the feature blocks: the mask ranges over
+leading batch dims (`k ≤ n`), the remaining batch dims and all feature dims are carried along -/
+theorem masked_select_leaf_commutes (leaf : T α) (mask : T Bool) (n : Nat) (hk : mask.shape.length ≤ n)
+    (hn : n ≤ leaf.shape.length) :
+    asBatch (1 + (n - mask.shape.length)) (T.maskedSelect mask leaf) ≈ₜₜ T.maskedSelect mask (asBatch n leaf) := by
+  apply asBatch_eqv2
+  · simp only [T.maskedSelect, asBatch]
+    rw [Nat.add_comm, List.take_succ_cons, take_drop_comm _ _ _ hk]
+  · intro c hc
+    simp only [T.maskedSelect, asBatch] at hc ⊢
+    rw [Nat.add_comm, List.take_succ_cons, take_drop_comm _ _ _ hk] at hc
+    have hcl : c.length = 1 + (n - mask.shape.length) := by
+      have := InB.length_eq hc; simp at this; omega
+    obtain ⟨i, rest, rfl⟩ : ∃ i rest, c = i :: rest := by
+      cases c with
+      | nil => simp at hcl; omega
+      | cons i rest => exact ⟨i, rest, rfl⟩
+    have hi : i < (T.maskSel mask).length := by
+      have := hc; simp [InB] at this; exact this.1
+    have hrl : rest.length = n - mask.shape.length := by simp at hcl; omega
+    have hs : ((T.maskSel mask)[i]?).getD [] = (T.maskSel mask)[i] := by simp [List.getElem?_eq_getElem hi]
+    simp only [List.headD_cons, List.tail_cons, hs]
+    refine ⟨?_, ?_⟩
+    · rw [Nat.add_comm, List.drop_succ_cons, List.drop_drop]
+      congr 1; omega
+    · intro f _
+      simp only [List.cons_append, List.headD_cons, List.tail_cons, hs, List.append_assoc]
+
+
+/-- masked_select of a tensordict: the result's batch size is the shape boolean indexing gives the batch-shape proxy
+(`[number of true entries] ++ the batch dims the mask does not cover`), and those dims keep their names -/
+theorem masked_select_batch_eq_torch (mask : T Bool) (bs : Shape) (names : Names) (es : List (String × TD α)) (r : TD α)
+    (h : mselNode mask bs names es = .ok r) :
+    ∃ es', r = .node (T.maskedSelect mask (proxy bs)).shape (normNames (names.map fun l => none :: l.drop mask.shape.length)) es' := by
+  unfold mselNode at h
+  split at h
+  · cases h
+  · split at h
+    · cases h
+    · split at h
+      · cases h
+      · rename_i es' _
+        simp only [Except.ok.injEq] at h
+        exact ⟨es', by rw [← h]; simp [T.maskedSelect, proxy]⟩
+
 /-! ## whole trees -/
 
 /-- on a leaf carrying `bs` as a prefix, a good call succeeds and the result carries the new batch size as a prefix -/
